@@ -339,7 +339,7 @@ func classifyLoop(p *core.Prog, f *ssa.Function, l *core.Loop, mayBlock map[*ssa
 					if !step {
 						continue
 					}
-					if inv := loopInvariant(side.bound, l); inv {
+					if inv := loopInvariant(p, side.bound, l); inv {
 						return "counted loop with a loop-invariant bound", true
 					}
 				}
@@ -399,7 +399,42 @@ func classifyLoop(p *core.Prog, f *ssa.Function, l *core.Loop, mayBlock map[*ssa
 	return "unclassified", false
 }
 
-func loopInvariant(v ssa.Value, l *core.Loop) bool {
+var fieldWritersMemo = map[*core.Prog]map[*types.Var]map[*ssa.Function]bool{}
+
+// fieldWriters: the functions of the analysed packages that may change the
+// field (store into it, or take its address for anything but a load or a
+// store), closed under callers.
+func fieldWriters(p *core.Prog, fld *types.Var) map[*ssa.Function]bool {
+	if fieldWritersMemo[p] == nil {
+		fieldWritersMemo[p] = map[*types.Var]map[*ssa.Function]bool{}
+	}
+	if m, ok := fieldWritersMemo[p][fld]; ok {
+		return m
+	}
+	direct := map[*ssa.Function]bool{}
+	for _, f := range p.SrcFuncs {
+		core.EachInstr(f, func(i ssa.Instruction) {
+			fa, ok := i.(*ssa.FieldAddr)
+			if !ok || core.AddrField(fa) != fld {
+				return
+			}
+			for _, ref := range *fa.Referrers() {
+				switch ref.(type) {
+				case *ssa.UnOp, *ssa.DebugRef:
+				default:
+					// a store into the field, or its address stored,
+					// passed on or captured
+					direct[f] = true
+				}
+			}
+		})
+	}
+	m := p.CallersClosureWithin(direct, func(*ssa.Function) bool { return true })
+	fieldWritersMemo[p][fld] = m
+	return m
+}
+
+func loopInvariant(p *core.Prog, v ssa.Value, l *core.Loop) bool {
 	switch x := v.(type) {
 	case *ssa.Const, *ssa.Parameter, *ssa.FreeVar, *ssa.Global:
 		return true
@@ -410,12 +445,12 @@ func loopInvariant(v ssa.Value, l *core.Loop) bool {
 		// len(x) of an invariant, conversions, loads of fields not stored in the loop
 		switch y := v.(type) {
 		case *ssa.Convert:
-			return loopInvariant(y.X, l)
+			return loopInvariant(p, y.X, l)
 		case *ssa.ChangeType:
-			return loopInvariant(y.X, l)
+			return loopInvariant(p, y.X, l)
 		case *ssa.Call:
 			if b, ok := y.Call.Value.(*ssa.Builtin); ok && (b.Name() == "len" || b.Name() == "cap") {
-				return loopInvariant(y.Call.Args[0], l)
+				return loopInvariant(p, y.Call.Args[0], l)
 			}
 		case *ssa.UnOp:
 			if y.Op == token.MUL {
@@ -428,9 +463,11 @@ func loopInvariant(v ssa.Value, l *core.Loop) bool {
 						if st, ok := i.(*ssa.Store); ok && core.AddrField(st.Addr) == fld {
 							return false
 						}
-						if _, ok := i.(*ssa.Call); ok {
-							// a call might change the field; accept only builtin calls in the loop for this form
-							if _, isB := i.(*ssa.Call).Call.Value.(*ssa.Builtin); !isB {
+						if c, ok := i.(*ssa.Call); ok {
+							// a call might change the field: accept builtins and
+							// calls that cannot reach a function that stores into
+							// the field or lets its address escape
+							if _, isB := c.Call.Value.(*ssa.Builtin); !isB && p.MayCall(c, fieldWriters(p, fld)) {
 								return false
 							}
 						}
